@@ -562,23 +562,45 @@ func ruleDedupeKeepsOne(r *core.Reporter) {
 		r.Violated("DedupeItems/markCompleted", fnPos(p, fn), "parents whose last pending child was removed as a duplicate are not re-evaluated (markCompleted missing after the loop)")
 	}
 	// flattenTree: appends every node and recurses into all children unconditionally
-	var trav *ssa.Function
-	for _, a := range ft.AnonFuncs {
-		trav = a
-	}
-	if trav == nil {
-		r.Undecided("flattenTree", fnPos(p, ft), "traversal closure not found")
-		return
-	}
-	r.Analysed(trav)
-	var rec *ssa.Call
-	allInstrs(trav, func(in ssa.Instruction) {
-		if c, ok := in.(*ssa.Call); ok && ir.CalleeOf(c.Common()) == nil && !c.Call.IsInvoke() {
-			if _, isB := c.Call.Value.(*ssa.Builtin); !isB {
-				rec = c
+	// the traversal is a recursive closure of flattenTree, a recursive named helper it calls, or flattenTree itself
+	cands := append([]*ssa.Function{}, ft.AnonFuncs...)
+	allInstrs(ft, func(in ssa.Instruction) {
+		if c, ok := in.(*ssa.Call); ok {
+			if f := ir.CalleeOf(c.Common()); f != nil && core.InModule(f) && f.Pkg == ft.Pkg && f.Blocks != nil {
+				cands = append(cands, f)
 			}
 		}
 	})
+	cands = append(cands, ft)
+	var trav *ssa.Function
+	var rec *ssa.Call
+	for _, cand := range cands {
+		allInstrs(cand, func(in ssa.Instruction) {
+			c, ok := in.(*ssa.Call)
+			if !ok || c.Call.IsInvoke() || rec != nil {
+				return
+			}
+			callee := ir.CalleeOf(c.Common())
+			if callee == cand {
+				trav, rec = cand, c
+				return
+			}
+			// a closure calling itself through its captured variable
+			if callee == nil && cand.Parent() != nil {
+				if _, isB := c.Call.Value.(*ssa.Builtin); !isB {
+					trav, rec = cand, c
+				}
+			}
+		})
+		if rec != nil {
+			break
+		}
+	}
+	if trav == nil {
+		r.Undecided("flattenTree", fnPos(p, ft), "recursive traversal not found")
+		return
+	}
+	r.Analysed(trav)
 	okFlat := rec != nil && loopCoversAll(trav, rec)
 	// the only conditions on the path to the recursion: node == nil and the loop bound
 	if okFlat {
